@@ -52,6 +52,9 @@ func (c *regexpPatternChecker) VisitExpr(x ast.Expr) {
 
 	switch qualifiedName(call.Fun) {
 	case "regexp.Compile", "regexp.CompilePOSIX", "regexp.MustCompile", "regexp.MustCompilePosix":
+		if len(call.Args) == 0 {
+			return
+		}
 		cv := c.ctx.TypesInfo.Types[call.Args[0]].Value
 		if cv == nil || cv.Kind() != constant.String {
 			return
